@@ -205,6 +205,19 @@ def advertisement_stage(out, prop, tier, seed):
     if res.violated or not cases:
         raise vf.ToolError("SysSnapshot: %s" % (res.violated or "no cases"))
     cases.sort(key=vf.key)
+    # the advertisement follows the sources' CURRENT reports: every case is followed, on the same NtpManager and with the
+    # same selection, by another enumerated case of the same shape (types, reported or not, local stratum) but other strata
+    shape = lambda c: (c["local"], tuple((x["ty"], x["snap"]) for x in c["list"]))
+    groups = {}
+    for c in cases:
+        groups.setdefault(shape(c), []).append(c)
+    rng = __import__("random").Random(seed)
+    for g in groups.values():
+        for k, c in enumerate(g):
+            others = [d for d in g if d["expect"] != c["expect"]] or [d for d in g if d is not c]
+            if others:
+                d = others[rng.randrange(len(others))]
+                c["then"] = {"list": d["list"], "expect": d["expect"]}
     wd = vf.workdir("SysSnapshot")
     inp, outp = os.path.join(wd, "cases.ndjson"), os.path.join(wd, "results.ndjson")
     vf.write_ndjson(inp, cases)
@@ -219,6 +232,7 @@ def advertisement_stage(out, prop, tier, seed):
                                                      ",".join(sorted(r["fields"])))
             out.violation(sig, {"case": c, "observed": r["observed"]})
     out.add("advertisement_cases_confirmed", len(results))
+    out.add("advertisement_cases_followed_by_changed_reports", sum(1 for c in cases if "then" in c))
     out.add("states", res.distinct)
     out.add("transitions", len(cases))
     out.sample({"advertisement_case": cases[len(cases) // 2]})
